@@ -75,16 +75,16 @@ Definition lex_comment (r : list N) : outcome (list token * list N) :=
   end.
 
 (* ----- numbers ----- *)
-(* acc.parse::<f64>() accepts D+ | D+.D* optionally followed by e, an optional -, and D+;
+(* acc.parse::<f64>() accepts D+ | D+.D* optionally followed by e, an optional - or +, and D+;
    of the texts the lexer builds it rejects exactly those whose exponent has no digit *)
 Definition float_tok (imag : bool) (txt : list N) (valid : bool) : token :=
   if valid then (if imag then TImag txt else TFloat txt) else TInvalid IBadFloat.
 
-(* the `e`/`E` arm: acc.push('e'); optional '-'; digits *)
+(* the `e`/`E` arm: acc.push('e'); optional sign '-' or '+' (kept as written); digits *)
 Definition lex_exponent (acc : list N) (r : list N) : token * list N :=
   let acc1 := acc ++ [chr "e"] in
   let '(acc2, r2) := match r with
-                     | c :: r' => if isc "-" c then (acc1 ++ [c], r') else (acc1, r)
+                     | c :: r' => if isc "-" c || isc "+" c then (acc1 ++ [c], r') else (acc1, r)
                      | [] => (acc1, r)
                      end in
   let '(es, r3) := span is_ascii_digit r2 in
@@ -309,6 +309,9 @@ Proof. reflexivity. Qed.
 Example ex_lex2 : lex U_ascii (cps "a<=b #(x(y)z) 1.5e-3 2q 7r") =
   Ok [TIdent (cps "a"); TIdent (cps "<="); TIdent (cps "b"); TComment (cps "x(y)z");
       TFloat (cps "1.5e-3"); TRat 2; TInt 0].
+Proof. reflexivity. Qed.
+Example ex_lex_exp_plus : lex U_ascii (cps "1e+21 2.5E+3 1e+ 1e+x") =
+  Ok [TFloat (cps "1e+21"); TFloat (cps "2.5e+3"); TInvalid IBadFloat; TInvalid IBadFloat; TIdent (cps "x")].
 Proof. reflexivity. Qed.
 Example ex_lex3 : lex U_ascii (cps "B'\xff' F'{x}' R'\n' 1e") =
   Ok [TBytes [195; 191]; TFmt (cps "{x}"); TStr (cps "\n"); TInvalid IBadFloat].
